@@ -70,17 +70,22 @@ def negAttr (b : Bool) : List (QName × String) :=
 def encTextMatch (t : TextMatch) : Node :=
   el "text-match" (negAttr t.negate ++ atOpt "match-type" t.matchType) (textNodes t.text)
 
+def indNodes (b : Bool) : List Node := if b then [el "is-not-defined" [] []] else []
+
+def optTM : Option TextMatch → List Node
+  | some t => [encTextMatch t]
+  | none => []
+
 def encParamFilter (p : ParamFilter) : Except Err Node :=
   if p.isNotDefined ∧ p.textMatch.isSome then .error .encode
-  else .ok (el "param-filter" [att "name" p.name]
-    ((if p.isNotDefined then [el "is-not-defined" [] []] else []) ++ (match p.textMatch with | some t => [encTextMatch t] | none => [])))
+  else .ok (el "param-filter" [att "name" p.name] (indNodes p.isNotDefined ++ optTM p.textMatch))
 
 def encPropFilter (p : PropFilter) : Except Err Node :=
   if p.isNotDefined ∧ (!p.textMatches.isEmpty ∨ !p.params.isEmpty) then .error .encode
   else match p.params.mapM encParamFilter with
     | .error e => .error e
     | .ok params => .ok (el "prop-filter" ([att "name" p.name] ++ atOpt "test" p.test)
-        ((if p.isNotDefined then [el "is-not-defined" [] []] else []) ++ p.textMatches.map encTextMatch ++ params))
+        (indNodes p.isNotDefined ++ p.textMatches.map encTextMatch ++ params))
 
 /-- `encodeAddressPropReq`: DAV:prop with address-data, getlastmodified, getetag -/
 def encPropReq (allProp : Bool) (props : List String) : Node :=
